@@ -147,6 +147,64 @@ func (ei *escInfo) escapedAt(a ssa.Value, b *ssa.BasicBlock, idx int) bool {
 	return false
 }
 
+// refTerms lists the reference-like component terms of a value.
+func refTerms(v Val) []string {
+	var refs []string
+	var collect func(v Val)
+	collect = func(v Val) {
+		switch v.K {
+		case KSlice, KPtr:
+			if _, isFn := v.T.Underlying().(*types.Signature); !isFn {
+				refs = append(refs, v.C[0])
+			}
+		case KIface:
+			refs = append(refs, v.C[1])
+		case KStruct, KTuple:
+			n := 0
+			switch u := v.T.Underlying().(type) {
+			case *types.Struct:
+				n = u.NumFields()
+			case *types.Tuple:
+				n = u.Len()
+			}
+			for i := 0; i < n; i++ {
+				lo, hi, ft := fieldRange(v.T, i)
+				collect(mkVal(ft, v.C[lo:hi]))
+			}
+		}
+	}
+	collect(v)
+	return refs
+}
+
+// recordExisting remembers reference values of unknown origin (parameters, loop/merge phis, call results,
+// loaded pointers): an object allocated later is different from all of them.
+func (fc *FnCtx) recordExisting(v Val) {
+	for _, r := range refTerms(v) {
+		if _, isLit := litOf(r); isLit {
+			continue
+		}
+		fc.existing = append(fc.existing, existingRef{fc.curBlock, r})
+	}
+}
+
+type existingRef struct {
+	b    *ssa.BasicBlock
+	term string
+}
+
+// newIsNew: the reference just allocated differs from every reference value that existed before.
+func (fc *FnCtx) newIsNew(r string) {
+	for _, x := range fc.existing {
+		if x.term == r {
+			continue
+		}
+		if x.b == nil || x.b == fc.curBlock || (fc.curBlock != nil && x.b.Dominates(fc.curBlock)) {
+			fc.assumeHere(fmt.Sprintf("(not (= %s %s))", r, x.term))
+		}
+	}
+}
+
 // noAliasLocal: assume that the pointer components of v differ from every local allocation not yet escaped.
 func (fc *FnCtx) noAliasLocal(v Val) {
 	if len(fc.allocSite) == 0 {
